@@ -417,7 +417,7 @@ func (c *ComputedStyle) cascadeValue(key pr.PropKey) (value pr.DeclaredValue, sa
 	if rawTokens, isPending := value.(pr.RawTokens); isPending { // Property with pending values, validate them.
 		var solvedTokens []Token
 		for _, token := range rawTokens {
-			tokens := resolveVar(c.variables, token)
+			tokens := resolveVar(c.variables, token, utils.NewSet())
 			if tokens == nil {
 				solvedTokens = append(solvedTokens, token)
 			} else {
@@ -1505,7 +1505,9 @@ func (styleFor StyleFor) SetPageComputedStylesT(pageType utils.PageElement, html
 }
 
 // Return tokens with resolved CSS variables.
-func resolveVar(computed map[string]pr.RawTokens, token Token) []Token {
+// [visiting] holds the names of the variables being resolved: a variable
+// referencing itself (directly or not) is invalid and only its fallback is used.
+func resolveVar(computed map[string]pr.RawTokens, token Token, visiting utils.Set) []Token {
 	if !validation.HasVar(token) {
 		return nil
 	}
@@ -1515,13 +1517,13 @@ func resolveVar(computed map[string]pr.RawTokens, token Token) []Token {
 		arguments := []Token{}
 		for _, argument := range fn.Arguments {
 			if fna, isFunction := argument.(pa.FunctionBlock); isFunction && utils.AsciiLower(fna.Name) == "var" {
-				arguments = append(arguments, resolveVar(computed, argument)...)
+				arguments = append(arguments, resolveVar(computed, argument, visiting)...)
 			} else {
 				arguments = append(arguments, argument)
 			}
 		}
 		token = pa.NewFunctionBlock(token.Pos(), fn.Name, arguments)
-		if resolved := resolveVar(computed, token); len(resolved) != 0 {
+		if resolved := resolveVar(computed, token, visiting); len(resolved) != 0 {
 			return resolved
 		}
 		return []Token{token}
@@ -1533,12 +1535,17 @@ func resolveVar(computed map[string]pr.RawTokens, token Token) []Token {
 	variableName := varNameToken.(pa.Ident).Value
 
 	source := default_
-	if l := computed[variableName]; len(l) != 0 {
-		source = l
+	if !visiting.Has(variableName) { // else: cyclic reference
+		if l := computed[variableName]; len(l) != 0 {
+			source = l
+		}
 	}
+	visiting.Add(variableName)
+	defer delete(visiting, variableName)
+
 	computedValue := []Token{}
 	for _, value := range source {
-		if resolved := resolveVar(computed, value); resolved != nil {
+		if resolved := resolveVar(computed, value, visiting); resolved != nil {
 			computedValue = append(computedValue, resolved...)
 		} else {
 			computedValue = append(computedValue, value)
